@@ -731,6 +731,15 @@ func (s *Scope) evalCall(e *Expr) *Val {
 		// typeis(x, "pkg.T") : dynamic type of interface value
 		a := argv(0)
 		want := e.Args[1].Name
+		if s.pkg != nil {
+			if m, ok := s.pkg.Members[strings.TrimPrefix(want, "*")].(*ssa.Type); ok {
+				var tt types.Type = m.Type()
+				if strings.HasPrefix(want, "*") {
+					tt = types.NewPointer(tt)
+				}
+				return scalar(Eq(a.Tag, c.typeTag(tt)), boolT)
+			}
+		}
 		for _, id := range c.W.tagIDs() {
 			t := c.W.tagType(id)
 			if shortTypeName(t) == want || strings.TrimPrefix(shortTypeName(t), "*") == want {
@@ -742,6 +751,36 @@ func (s *Scope) evalCall(e *Expr) *Val {
 			panic(sfail("unknown type %s", want))
 		}
 		return scalar(Eq(a.Tag, c.typeTag(tt)), boolT)
+	case "disjoint":
+		// disjoint(a, b): two slices backed by different allocations
+		a, b := argv(0), argv(1)
+		if a.K != KSlice || b.K != KSlice {
+			panic(sfail("disjoint: slices expected"))
+		}
+		return scalar(Neq(a.Base, b.Base), boolT)
+	case "dyn":
+		// dyn(x, T): the *T held by interface value x (meaningful where typeis(x, T) holds)
+		a := argv(0)
+		if a.K != KIface {
+			panic(sfail("dyn: not an interface value"))
+		}
+		want := strings.TrimPrefix(e.Args[1].Name, "*")
+		var tt types.Type
+		if s.pkg != nil {
+			if m, ok := s.pkg.Members[want].(*ssa.Type); ok {
+				tt = m.Type()
+			}
+		}
+		if tt == nil {
+			tt = c.W.findType(want)
+		}
+		if tt == nil {
+			panic(sfail("unknown type %s", want))
+		}
+		if p, ok := tt.(*types.Pointer); ok {
+			tt = p.Elem()
+		}
+		return scalar(a.Pay, types.NewPointer(tt))
 	case "deref":
 		a := argv(0)
 		return c.load(s.st, a.T, deref(a.Ty))
